@@ -2,6 +2,8 @@
 from __future__ import annotations
 
 import ast
+import os
+import sys
 import time
 import traceback
 import z3
@@ -34,6 +36,8 @@ class FunctionReport:
         self.bounded_labels = set()
         self.trusted = False
         self.notes = []
+        self.covers = {}
+        self.dead_antecedents = []
 
     def to_json(self):
         return {
@@ -42,7 +46,7 @@ class FunctionReport:
             "obligations": [o.to_json() for o in self.obligations], "inlined": sorted(self.inlined),
             "abstracted": sorted(self.abstracted), "extern_used": sorted(self.extern_used), "wall_s": round(self.wall_s, 3),
             "solver_s": round(self.solver_s, 3), "bounded_labels": sorted(self.bounded_labels), "trusted": self.trusted,
-            "notes": self.notes,
+            "notes": self.notes, "implications_covered": sum(1 for v in self.covers.values() if v), "dead_antecedents": self.dead_antecedents,
         }
 
 
@@ -156,6 +160,8 @@ def verify_contract(reg: Registry, c: Contract, cfg: Config) -> FunctionReport:
         env.vars["raised"] = raised.cls.name if raised is not None else None
         env.vars["exc"] = raised
         env.vars["trace"] = it.trace
+        if os.environ.get("PYVC_TRACE"):
+            print(f"TRACE {short}: raised={env.vars['raised']} result={result!r:.80} ghost={ {k: (v if isinstance(v, (str, int, bool, type(None))) else type(v).__name__) for k, v in it.ghost.items()} } labels={getattr(path, 'labels', None)}", file=sys.stderr)
         if raised is not None:
             allowed = False
             for r in c.raises:
@@ -169,10 +175,13 @@ def verify_contract(reg: Registry, c: Contract, cfg: Config) -> FunctionReport:
                 path.oblige(f"{short}::raises:{raised.cls.name}", "raises", outside(f"raises:{raised.cls.name}", False),
                             detail=f"exception {raised.cls.name}{_args_repr(raised)} escapes; allowed: {c.raises}")
             for k, cl in c.raises_ensures.items():
+                it.cover_ctx = f"{short}::post-exc:{k}"
                 path.oblige(f"{short}::post-exc:{k}", "post", outside(f"post-exc:{k}", truthy(it.eval_spec(cl, env, olds))), detail=cl)
         else:
             for k, cl in c.ensures.items():
+                it.cover_ctx = f"{short}::post:{k}"
                 path.oblige(f"{short}::post:{k}", "post", outside(f"post:{k}", truthy(it.eval_spec(cl, env, olds))), detail=cl)
+        it.cover_ctx = None
         path.completed = True
 
     try:
@@ -183,7 +192,6 @@ def verify_contract(reg: Registry, c: Contract, cfg: Config) -> FunctionReport:
     except OutOfSubset as e:
         rep.status = "undecided"
         rep.reason = f"out of subset: {e}"
-        import os
         if os.environ.get("PYVC_DEBUG"):
             rep.reason += "\n" + traceback.format_exc()[-2500:]
         rep.wall_s = time.time() - t0
@@ -203,6 +211,9 @@ def verify_contract(reg: Registry, c: Contract, cfg: Config) -> FunctionReport:
             rep.bounded_labels.add(p.bounded)
         for b in p.bounded_inputs:
             rep.bounded_labels.add("bounded input " + b)
+        for key, reach in p.covers.items():
+            rep.covers[key] = rep.covers.get(key, False) or reach
+    rep.dead_antecedents = sorted(f"{k[0]}: implies({k[1]}, ...)" for k, reach in rep.covers.items() if not reach)
     if rep.completed_paths == 0:
         rep.status = "error"
         rep.reason = "vacuity guard: no path reached the end of the function (contradictory requires?)"
@@ -231,6 +242,9 @@ def verify_lemma(reg: Registry, l: Lemma, cfg: Config) -> FunctionReport:
         path.model_hook = lambda m, _a=dict(env.vars): C.concretize_inputs(_a, m)
         for h in l.hypotheses:
             path.assume(truthy(it.eval_spec(h, env)))
+        path.solver.set("timeout", 5000)
+        if path.solver.check() == z3.unsat:
+            raise OutOfSubset(f"vacuity guard: the hypotheses of lemma {l.name} are contradictory")
         path.oblige(f"lemma:{l.name}", "lemma", truthy(it.eval_spec(l.claim, env)), detail=l.claim)
         path.completed = True
 
